@@ -154,9 +154,19 @@ package motion
 //@   call ValueOf#1 assert [C12,C17] $0 == i
 //@   ensures [C12,C17] result == (isnil(i) || ref(i) == 0)
 
+// What a frame parser may rely on when Process calls it: a frame of the processor's
+// geometry and a raw buffer long enough for that geometry - parserBase is the size of
+// whatever precedes the pixels in the parser's raw format (the Lepton telemetry block;
+// nothing for the Boson), fixed per parser by the two axioms next to the parsers'
+// contracts. Each concrete parser is checked to need no more than this
+// (`implements motion.FrameParser`).
+//@ abstract func parserBase(f FrameParser) int
+//@ pure func rowwM(f *cptvframe.Frame) int := len(f.Pix) == 0 ? 0 : len(f.Pix[0])
 //@ functype FrameParser(raw, out, edge) (err)
 //@   mode trusted
-//@   requires out != nil
+//@   requires out != nil && edge >= 0
+//@   requires forall y int :: 0 <= y && y < len(out.Pix) ==> len(out.Pix[y]) == rowwM(out) && owner(arr(out.Pix[y])) == ref(out) && rowof(arr(out.Pix[y])) == y
+//@   requires len(raw) >= parserBase(fnval) + 2 * (len(out.Pix) * rowwM(out))
 //@   modifies pix(out), out.Status
 
 //@ func min
@@ -351,6 +361,7 @@ package motion
 //@   ensures [C02] result.frameLoop.size == recorderConf.PreviewSecs*c.FPS() + motionConf.TriggerFrames && result.frameLoop.n() == 0
 //@   ensures [C04] result.triggerFrames == motionConf.TriggerFrames && result.run == 0 && !result.isRecording
 //@   ensures [C20] result.log.interval == 60000000000
+//@   ensures [C12,C13] result.motionDetector.gResX == c.ResX() && result.motionDetector.gResY == c.ResY()
 //@   ensures [C07,C08,C11,C15] result.motionDetector.deltaThresh == motionConf.DeltaThresh && result.motionDetector.countThresh == motionConf.CountThresh && result.motionDetector.tempThresh == motionConf.TempThresh && result.motionDetector.warmerOnly == motionConf.WarmerOnly && result.motionDetector.useOneDiff == motionConf.UseOneDiffOnly && result.motionDetector.flooredFrames.size == motionConf.FrameCompareGap + 1 && result.motionDetector.start == motionConf.EdgePixels
 //@   ensures [C11,C15] result.motionDetector.tempThreshMin == motionConf.TempThreshMin && result.motionDetector.tempThreshMax == motionConf.TempThreshMax && result.motionDetector.dynamicThresh == motionConf.DynamicThreshold && result.motionDetector.previewFrames == recorderConf.PreviewSecs*c.FPS()
 //@   ensures [C17] result.constantRecording == !(isnil(constantRecorder) || ref(constantRecorder) == 0) && result.crFrames == 0
@@ -384,6 +395,7 @@ package motion
 
 //@ func (mp *MotionProcessor) Process
 //@   requires mp != nil && mp.PInv() && mp.parseFrame != nil
+//@   requires [C12,C13] len(rawFrame) >= parserBase(mp.parseFrame) + 2 * (mp.motionDetector.gResY * mp.motionDetector.gResX)
 //@   modifies mp.CurrentFrame, mp.crFrames, mp.StartSnapshot, mp.SnapshotRecording, mp.snapshotFrames
 //@   modifies mp.triggered, mp.isRecording, mp.framesWritten, mp.writeUntil, mp.run, mp.lastMotionFW, mp.gMotion
 //@   modifies mp.frameLoop.currentIndex, mp.frameLoop.bufferFull, mp.frameLoop.oldest, mp.frameLoop.base, mp.frameLoop.mark, elems(mp.frameLoop.orderedFrames)
